@@ -68,6 +68,27 @@ def _unique_observable_times(
     return observable_times
 
 
+# Relative times closer than this denote the same instant (it is the tolerance
+# the backends use to match evaluation times).
+_TIME_MERGE_TOLERANCE = 1e-10
+
+
+def _merge_close_times(times: set[float]) -> list[float]:
+    """
+    Sorted relative times, where times that only differ by rounding (e.g. the grid
+    point `i * dt / duration` and a requested evaluation time) are kept once.
+    The end of the sequence, 1.0, is always kept as such.
+    """
+    merged: list[float] = []
+    for t in sorted(times):
+        if merged and t - merged[-1] <= _TIME_MERGE_TOLERANCE:
+            if t == 1.0:
+                merged[-1] = t
+            continue
+        merged.append(t)
+    return merged
+
+
 def _get_target_times(
     sequence: pulser.Sequence,
     config: EmulationConfig,
@@ -84,7 +105,9 @@ def _get_target_times(
         i * float(dt) / duration for i in range(n_steps + 1)
     }
     evolution_times_rel.add(1.0)
-    target_times_rel = evolution_times_rel | _unique_observable_times(config)
+    target_times_rel = _merge_close_times(
+        evolution_times_rel | _unique_observable_times(config)
+    )
     target_times: list[float] = sorted({t * duration for t in target_times_rel})
     return target_times
 
